@@ -2003,3 +2003,43 @@ Proof.
   intros ok dest fuel fs0 fs m sa before whole H1 H2 H3 H4 H5 H6.
   exact (tar_extract_safe ok H1 dest H2 H3 fuel fs0 fs m sa before whole H4 H5 H6).
 Qed.
+
+(* ================================================================== the filter judges the CURRENT file system state *)
+(* _tarExtractFilter resolves the full member path (and hard link target) in the
+   file system state it is called in: an accepted member satisfies [guard] for
+   that very state.  Nothing resolved for an earlier member is reused. *)
+Lemma filter_judges_current_state_stmt : forall fuel fs dest m nm,
+  tar_filter fuel fs dest m = Some nm ->
+  has_dotdot nm = false /\
+  inside dest (realpath fuel fs (join_dest dest nm)) = true /\
+  (is_lnk (m_kind m) = true -> inside dest (realpath fuel fs (join_dest dest (m_link m))) = true).
+Proof.
+  intros fuel fs dest m nm. unfold tar_filter.
+  set (n0 := if is_abs (m_name m) then lstrip_slash (m_name m) else m_name m).
+  destruct (has_dotdot n0) eqn:E1; [discriminate|].
+  destruct (inside dest (realpath fuel fs (join_dest dest n0))) eqn:E2; simpl; [|discriminate].
+  destruct (is_lnk (m_kind m)) eqn:E3; simpl.
+  - destruct (inside dest (realpath fuel fs (join_dest dest (m_link m)))) eqn:E4; simpl; [|discriminate].
+    intros H; inversion H; subst. auto.
+  - intros H; inversion H; subst. split; [exact E1|]. split; [exact E2|]. discriminate.
+Qed.
+
+(* TarHelper.__extractPackage hands every content member to TarFile.extract in
+   the state its predecessor left, and the next member gets the state this one left. *)
+Lemma loop_threads_state_stmt : forall fuel fs audit dest done f rest,
+  starts_with CONTENT_PREFIX (m_name f) = true ->
+  is_lnk (m_kind f) && negb (starts_with CONTENT_PREFIX (m_link f)) = false ->
+  let f' := mkMember (drop8 (m_name f)) (m_kind f) (if is_lnk (m_kind f) then drop8 (m_link f) else m_link f)
+                     (m_mode f) (m_data f) in
+  let r := tar_extract fuel fs dest f' (negb (is_lnk (m_kind f))) done (rev rest ++ f' :: done) in
+  x_st r <> MFatal -> x_consumed r = false ->
+  extract_loop fuel fs audit dest done (f :: rest) =
+  (fst (fst (extract_loop fuel (x_fs r) audit dest (f' :: done) rest)),
+   snd (fst (extract_loop fuel (x_fs r) audit dest (f' :: done) rest)),
+   x_nmk r || snd (extract_loop fuel (x_fs r) audit dest (f' :: done) rest)).
+Proof.
+  intros fuel fs audit dest done f rest H1 H2 f' r H3 H4.
+  cbn [extract_loop]. rewrite H1, H2. fold f'. fold r. rewrite H4.
+  destruct (extract_loop fuel (x_fs r) audit dest (f' :: done) rest) as [[a b] c]. simpl.
+  destruct (x_st r); try reflexivity. contradiction.
+Qed.
